@@ -20,7 +20,7 @@
 //! are visible.
 //!
 //! Engines: (a) BFS with de-duplication on the canonical state (model map incl. last version +
-//! sorted directory listing with sizes) to depth 5 | 7; (b) every history (no de-duplication) to
+//! sorted directory listing with sizes) to depth 5 | 9 (at 9 the frontier is empty: every reachable canonical state has been expanded); (b) every history (no de-duplication) to
 //! depth 3 | 4. Oracle after every operation: entry kind, returned keys and errors equal the model;
 //! at the end of every history: `KeyStore::get` of both ids equals the model and (fs) the directory
 //! holds exactly one file per occupied id — nothing for an id whose vacant entry was dropped.
@@ -378,8 +378,24 @@ fn replay<T: Sut>(ops: &[Op], h: &[u8]) -> Outcome {
             Ok(Ok(s)) => store = s,
         }
     }
-    // final observation: KeyStore::get of every id, then the directory
+    // final observation: the directory first (the clause about dropped vacant entries) …
     let last = h.last().map(|&o| ops[o as usize].kind()).unwrap_or("open");
+    let listing = T::listing(&dir);
+    if let Some(l) = &listing {
+        let want: BTreeSet<String> = model.map.keys().map(|&i| T::file_name(i)).collect();
+        let have: BTreeSet<String> = l.keys().cloned().collect();
+        if want != have {
+            let extra: Vec<_> = have.difference(&want).cloned().collect();
+            let missing: Vec<_> = want.difference(&have).cloned().collect();
+            return Outcome {
+                canon: None,
+                fail: Some((format!("{last}: directory differs from the map"), format!("files without a key: {extra:?}; keys without a file: {missing:?}"))),
+                prefix_fail: None,
+                steps,
+            };
+        }
+    }
+    // … then KeyStore::get of every id
     for i in IDS {
         match mcx::catch(|| store.get::<Key>(bid(i))) {
             Err(p) => return Outcome { canon: None, fail: Some((format!("{last}: afterwards KeyStore::get panics"), p)), prefix_fail: None, steps },
@@ -397,21 +413,6 @@ fn replay<T: Sut>(ops: &[Op], h: &[u8]) -> Outcome {
         }
     }
     drop(store);
-    let listing = T::listing(&dir);
-    if let Some(l) = &listing {
-        let want: BTreeSet<String> = model.map.keys().map(|&i| T::file_name(i)).collect();
-        let have: BTreeSet<String> = l.keys().cloned().collect();
-        if want != have {
-            let extra: Vec<_> = have.difference(&want).cloned().collect();
-            let missing: Vec<_> = want.difference(&have).cloned().collect();
-            return Outcome {
-                canon: None,
-                fail: Some((format!("{last}: directory differs from the map"), format!("files without a key: {extra:?}; keys without a file: {missing:?}"))),
-                prefix_fail: None,
-                steps,
-            };
-        }
-    }
     // canonical state: model (with last versions) + listing (names → sizes)
     let mut c = String::new();
     for i in IDS {
@@ -536,7 +537,7 @@ pub fn run(args: &Args) {
         rep.finish();
     }
     let ops = alphabet();
-    let depth = args.tier.pick(5, 7);
+    let depth = args.tier.pick(5, 9);
     let plain_depth = args.tier.pick(3, 4);
     let mut states = 0;
     let mut transitions = 0;
@@ -550,7 +551,7 @@ pub fn run(args: &Args) {
             executions += t.executions;
             bounds.insert(
                 format!("{} {}", <$t>::NAME, $label),
-                json!({"depth_bound": $depth, "depth_completed": t.max_depth_done, "distinct_states": t.states, "histories_executed": t.executions, "frontier_per_depth": t.frontier_sizes}),
+                json!({"depth_bound": $depth, "depth_completed": t.max_depth_done, "closed": t.frontier_sizes.last() == Some(&0), "distinct_states": t.states, "histories_executed": t.executions, "frontier_per_depth": t.frontier_sizes}),
             );
         }};
     }
